@@ -6,6 +6,7 @@ package main
 import (
 	"encoding/json"
 	"fmt"
+	"math"
 	"os"
 	"strconv"
 	"strings"
@@ -189,6 +190,9 @@ func main() {
 	}
 	stacks := make([]*stack.Stack, len(Ns))
 	for i, n := range Ns {
+		if n == 1000000 {
+			n = math.MaxUint // "unlimited" as the library itself configures it (DefaultHeaderInjectors without flags, HTTP2FingerprintingFrames.String)
+		}
 		st, err := stack.Start(stack.Options{MaxPrio: n, MaxPrioSet: true})
 		if err != nil {
 			panic(err)
